@@ -125,6 +125,10 @@ class Outcome:
 
     def finish(self, coverage, level="exploration", assumptions=None, max_report=25):
         os.makedirs(os.path.join(VERIF, "evidence"), exist_ok=True)
+        if os.environ.get("VERIF_DUMP_FAILS"):  # development aid: dump every failing (key, case) pair
+            with open(os.environ["VERIF_DUMP_FAILS"], "w", encoding="utf-8") as f:
+                for key, case in self.violations:
+                    f.write(json.dumps({"key": key, "case": case}, ensure_ascii=False) + "\n")
         rdir = os.path.join(VERIF, "replays", self.pid)
         lines = []
         seen_keys = {}
